@@ -18,7 +18,9 @@ for l in open(conflog):
     if m: conf[m.group(1)]=m.groups()
 head=subprocess.run(['git','-C','/repo','log','--format=%h','-1'],capture_output=True,text=True).stdout.strip()
 flavour={4:" and, in round 4, for changes that are hard to find: interactions between two features and easily forgotten dimensions of the property's quantifier",
-         5:" and, in round 5, for faults of accumulation over long histories, dependence on the device configuration, commands arriving while something else is in progress and unusual-but-legal argument values (the kinds of change seen in earlier rounds were named as ones to avoid)"}
+         5:" and, in round 5, for faults of accumulation over long histories, dependence on the device configuration, commands arriving while something else is in progress and unusual-but-legal argument values (the kinds of change seen in earlier rounds were named as ones to avoid)",
+         6:" and, in round 6, for a narrow change in shared or peripheral code",
+         7:" and, in round 7 (one change per agent), for two cooperating sites that each look fine alone, faults that need a particular multi-step sequence (second use of a resource after a full cycle, a command arriving in the callback in which something else finishes), faults that need a particular alignment (a tween ending exactly at a chunk end, a loop end equal to the data length, a ring-buffer wrap, a tick on the last frame of a callback) and faults at a particular fault point (capacity exhausted, decoder error at a particular moment, a resource removed while another refers to it)"}
 rows=[]; bad=[]
 tag='r%d'%rnd
 for name in sorted(os.listdir('/verif/seeded')):
@@ -35,7 +37,7 @@ for name in sorted(os.listdir('/verif/seeded')):
     needs=sect([r'\*\*(What is needed|Needed to manifest|What is needed to manifest|Needs)[^\n]*', r'\*\*What[^\n]*manifest', r'## What is needed[^\n]*', r'## Needed[^\n]*', r'(?i)## [^\n]*manifest[^\n]*', r'(?i)\*\*[^\n]*manifest[^\n]*', r'(?i)## [^\n]*needs[^\n]*'])
     c=conf.get(name); r=res.get(name)
     meta={"property":ID,"round":rnd,
-     "origin":"written by a fresh sub-agent that was given only the property text and a scratch git worktree of /repo under /tmp (nothing from /verif); worktree removed afterwards — each agent was asked for two independent changes (A, B)"+flavour.get(rnd,''),
+     "origin":"written by a fresh sub-agent that was given only the property text and a scratch git worktree of /repo under /tmp (nothing from /verif); worktree removed afterwards — each agent was asked for "+("one change" if rnd>=7 else "two independent changes (A, B)")+flavour.get(rnd,''),
      "change":change,"needs_to_manifest":needs,
      "files":{"patch":"patch.diff","demonstration":"demo.rs (an integration test for crates/kira/tests/)","notes":"notes.md (the sub-agent's own report)"},
      "confirmed_by_me":{"how":"tools/confirm_seed.sh %s <dir> — scratch worktree of /repo HEAD under /tmp: demo without the change, git apply patch.diff, demo with the change, then `cargo test --workspace --no-fail-fast --offline` with the change and the demo moved aside; worktree and its build output removed"%name,
